@@ -24,7 +24,9 @@ META = dict(
          "Unwrapped hooks are driven through multi-block histories of their inputs (band price rounds for window sizes 1-4: positive runs, zero-rate outages shorter and longer than the "
          "accepted gap, rebuilds, silent rounds, short answers); optional records are present/absent in governance's set-up orders (lookup table / auction mapping before any fee, second "
          "asset later, missing white-listing / auction parameters, kill switch); a failing step of another stage of a hook (surplus/debt starter) must leave every listed unit's facets "
-         "as in the run where that step is masked.",
+         "as in the run where that step is masked. Auction starters (V1 surplus/debt activators, V2 starter) are judged by facets per auction mapping "
+         "(collector debited, auction record, mapping flag) on states with and without auction parameters; height-gated branches run at their gate heights with the fault armed "
+         "(swap-fee conversion every 150 blocks: never-traded pair with a pool and a coin in its fee collector, in either or both of two apps).",
     note="Trusted: TLC/Json module, sim.Digest over all DeFi stores + bank, the observation of unit failures through the wrapper's error log line, the item masks "
          "(borrow flagged liquidated / vault collateral inflated) used only for reference runs. Faults are injected at gas-metered store accesses only.",
     design_ref="4 C15",
@@ -83,13 +85,14 @@ def run(c):
                                                   rule="run ended with violations; see replay files", antecedents=st))
     need = ["states", "blocks", "units", "nestedUnits", "failedUnits", "effectiveUnits", "faultsFired", "faultsNested", "itemsFailed", "toys", "toysAborting",
             "facets", "facetsApplied", "facetsV1Applied", "facetsBorrowApplied", "facetsUntouched", "facetsEnvFault", "multiAppSweeps",
-            "stages", "stagesFailedWithWork", "oracleRounds", "oracleZeroRounds", "oracleRebuildRounds", "histSteps"]
+            "stages", "stagesFailedWithWork", "oracleRounds", "oracleZeroRounds", "oracleRebuildRounds", "histSteps",
+            "starters", "startersV1Started", "startersV2Started", "startersEnvFault", "gateBlocks150", "panickedUnits"]
     zero = [k for k in need if st.get(k, 0) == 0]
     if zero and not c.violations:   # a violation on real-code states is a verdict whatever the coverage
         raise vlib.NoVerdict("vacuous run, zero antecedent counters %s: %s" % (zero, st))
     if m1.get("transitions_dumped", 0) != st["toys"]:
         raise vlib.NoVerdict("model behaviours dumped (%s) != executed on the real wrapper (%s)" % (m1.get("transitions_dumped"), st["toys"]))
-    cases = st["toys"] + st["faults"] + st["units"] + st["items"] + st["blocks"] + st["dryRuns"] + st["facets"] + st["stages"]
+    cases = st["toys"] + st["faults"] + st["units"] + st["items"] + st["blocks"] + st["dryRuns"] + st["facets"] + st["stages"] + st["starters"]
     nontrivial = st["toysAborting"] + st["faultsFired"] + st["failedUnits"] + st["itemsFailed"]
     return c.finish("fault_enumeration", dict(
         evaluations=cases, distinct_nontrivial=nontrivial,
